@@ -75,9 +75,9 @@ CHECKS.update({
 
 CHECKS.update({
     "C01": dict(
-        technique="reaching-definition / control-dependence shape analysis of the child-resolution loop, abstract interpretation over 'record may have patches' for the deletion and substitution markers, marker constant agreement, interprocedural guard dominance, no-raw-access rule for move/copy",
-        text="Decides five structural necessary conditions of overlay transparency on every path of overlay.py (each names the concrete failing history if violated): sticky-virtual child resolution, deletion markers on every patched delete, substitution markers / stale marker removal on create, writer/reader marker agreement, guard discipline, move/copy through overlay primitives only.",
-        note="Not decided: equality of the overlay view with the reference tree over all histories and patch placements (run-time values).",
+        technique="reaching-definition / control-dependence shape analysis of the child-resolution loop, abstract interpretation over 'record may have patches' for the deletion and substitution markers, marker constant agreement, interprocedural guard dominance, no-raw-access rule for move/copy, syntactic exception-handler coverage (try/except position) for the failure-path clauses",
+        text="Decides five structural necessary conditions of overlay transparency on every path of overlay.py (each names the concrete failing history if violated): sticky-virtual child resolution, deletion markers on every patched delete, substitution markers / stale marker removal on create, writer/reader marker agreement, guard discipline, move/copy through overlay primitives only; plus two failure-path clauses (a refused move removes nothing but the source after the copy; a refused raw create after a marker removal puts the marker back).",
+        note="Not decided: equality of the overlay view with the reference tree over all histories and patch placements (run-time values). One known finding (C01.R13, IH5Group.create_dataset: a failed raw create after the deletion marker was removed lets the deleted node reappear) is listed in known_findings.json.",
         ref="DESIGN.md section 4 C01"),
     "C03": dict(
         technique="CFG order rule (sort before positional access), finite-domain partial evaluation of the constructor over 6 open modes x argument kind x disk situation against a contract table, character-class algebra on the repo's regex constants for file-name discovery, codec agreement between user-block writer and reader",
